@@ -1,0 +1,30 @@
+//go:build verif
+
+package kv
+
+import (
+	"fmt"
+	"runtime"
+	"time"
+)
+
+// VerifC02RollupSync starts the family's rollup job exactly as Store.ForceRollup does
+// (family.rollup(): CAS on `rolluping`, background goroutine) and waits until that goroutine has
+// finished including its deferred deleteObsoleteFiles. Unlike VerifRollupSync it does not wait
+// for the family's other background users (flushers / compactions may be parked by the harness).
+func VerifC02RollupSync(f Family) error {
+	fam, ok := f.(*family)
+	if !ok {
+		return fmt.Errorf("VerifC02RollupSync: not a *family")
+	}
+	fam.rollup()
+	deadline := time.Now().Add(30 * time.Second)
+	for fam.rolluping.Load() {
+		if time.Now().After(deadline) {
+			return fmt.Errorf("rollup of %s still marked running", fam.familyInfo())
+		}
+		runtime.Gosched()
+		time.Sleep(50 * time.Microsecond)
+	}
+	return nil
+}
